@@ -97,3 +97,122 @@ Example ex_callcc_resume :
   option_map (fun m3 => (top m3, fp m3, self m3, ip m3, firstn 3 (stack m3))) (resumecc m2 saved)
   = Some (3, 1, WObj 3, 12, [WObj 7; WFix 5; WFix 42]).
 Proof. vm_compute. reflexivity. Qed.
+
+(** ------------------------------------------------------------------ the growth path (round 3) *)
+Lemma grow_size_ge : forall size mn maxs n, size <= maxs -> grow_size size mn maxs = Some n -> mn <= n /\ size <= n.
+Proof.
+  intros size mn maxs n Hm H. unfold grow_size in H.
+  destruct (Nat.ltb (size * 2) mn) eqn:E1.
+  - apply Nat.ltb_lt in E1.
+    destruct (Nat.ltb maxs mn) eqn:E2.
+    + rewrite Bool.orb_true_r in H. discriminate.
+    + apply Nat.ltb_ge in E2. injection H as <-. lia.
+  - apply Nat.ltb_ge in E1.
+    destruct (Nat.ltb maxs (size * 2)) eqn:E2.
+    + destruct (Nat.eqb size maxs) eqn:E3; [discriminate|].
+      destruct (Nat.ltb maxs mn) eqn:E4; [discriminate|].
+      cbn in H. injection H as <-. apply Nat.ltb_ge in E4. lia.
+    + apply Nat.ltb_ge in E2. injection H as <-. lia.
+Qed.
+
+Lemma grow_stack_length : forall s t mn maxs junk s', t + 2 <= length s -> length s <= maxs ->
+  grow_stack s t mn maxs junk = Some s' -> mn <= length s' /\ length s <= length s'.
+Proof.
+  intros s t mn maxs junk s' Ht Hm H. unfold grow_stack in H.
+  destruct (grow_size (length s) mn maxs) as [n|] eqn:G; [|discriminate].
+  apply grow_size_ge in G; [|exact Hm]. injection H as <-.
+  rewrite app_length, !firstn_length, app_length, repeat_length. lia.
+Qed.
+
+(** the theorem of round 1 WITHOUT its no-growth premise, for the repaired opcode: capture in [m]; ANY later VM state
+    [m2] (of any stack size, e.g. the fresh 1024-word stack of another green thread) — if the restore does not report
+    out-of-stack, RESUMECC yields top, fp, self, ip as captured, every word below the call/cc slot as captured and the
+    passed value in the slot; the stack is at least as long as before *)
+Theorem callcc_resume_restores_grown_lemma : forall m kobj m1 saved m2 maxs junk m3,
+  1 <= top m -> top m + 4 <= length (stack m) ->
+  callcc m kobj = (m1, saved) ->
+  top m2 + 2 <= length (stack m2) -> length (stack m2) <= maxs ->
+  resumecc_g m2 saved maxs junk = Some m3 ->
+    top m3 = top m /\ fp m3 = fp m /\ self m3 = self m /\ ip m3 = ip m /\
+    length (stack m2) <= length (stack m3) /\ top m + 4 + 64 <= length (stack m3) /\
+    (forall i, i < top m - 1 -> sref (stack m3) i = sref (stack m) i) /\
+    sref (stack m3) (top m - 1) = sref (stack m2) (fp m2 - 1).
+Proof.
+  intros m kobj m1 saved m2 maxs junk m3 Ht Hl Hc Ht2 Hm2 Hr.
+  unfold callcc in Hc. injection Hc as _ Hs.
+  set (s4 := sset (sset (sset (sset (stack m) (top m) (WFix 1)) (top m + 1) (WFix (ip m))) (top m + 2) (self m))
+                  (top m + 3) (WFix (fp m))) in *.
+  assert (L4 : length s4 = length (stack m)) by (unfold s4; rewrite !sset_length; reflexivity).
+  assert (Lsv : length saved = top m + 4).
+  { rewrite <- Hs. unfold save_stack. rewrite firstn_length. lia. }
+  assert (Hsv : forall i, i < top m + 4 -> sref saved i = sref s4 i).
+  { intros i Hi. rewrite <- Hs. unfold save_stack. apply sref_firstn. exact Hi. }
+  unfold resumecc_g, restore_stack_g in Hr. rewrite Lsv in Hr.
+  (* in both branches the restored stack is saved ++ skipn len s' with length s' >= len + 64 *)
+  assert (Hex : exists s', length (stack m2) <= length s' /\ top m + 4 + 64 <= length s' /\
+            m3 = mkVM (sset (saved ++ skipn (top m + 4) s') (top m + 4 - 4 - 1) (sref (stack m2) (fp m2 - 1))) (top m + 4 - 4)
+                      (unfix (sref (saved ++ skipn (top m + 4) s') (top m + 4 - 1)))
+                      (sref (saved ++ skipn (top m + 4) s') (top m + 4 - 2))
+                      (unfix (sref (saved ++ skipn (top m + 4) s') (top m + 4 - 3)))).
+  { destruct (Nat.leb (length (stack m2)) (top m + 4 + 64)) eqn:E.
+    - destruct (grow_stack (stack m2) (top m2) (top m + 4 + 64) maxs junk) as [s'|] eqn:G; [|discriminate].
+      injection Hr as <-. exists s'. apply grow_stack_length in G; [|exact Ht2|exact Hm2]. repeat split; lia.
+    - injection Hr as <-. apply Nat.leb_gt in E. exists (stack m2). repeat split; lia. }
+  destruct Hex as (s' & Hl1 & Hl2 & ->). cbn [top fp self ip stack].
+  replace (top m + 4 - 4) with (top m) by lia.
+  replace (top m + 4 - 1) with (top m + 3) by lia.
+  replace (top m + 4 - 2) with (top m + 2) by lia.
+  replace (top m + 4 - 3) with (top m + 1) by lia.
+  rewrite !sref_app_l by lia. rewrite !Hsv by lia.
+  split; [reflexivity|].
+  split.
+  { unfold s4. rewrite sref_sset_same by (rewrite !sset_length; lia). reflexivity. }
+  split.
+  { unfold s4. rewrite sref_sset_other by lia. rewrite sref_sset_same by (rewrite !sset_length; lia). reflexivity. }
+  split.
+  { unfold s4. rewrite !(sref_sset_other _ (top m + 3)) by lia. rewrite !(sref_sset_other _ (top m + 2)) by lia.
+    rewrite sref_sset_same by (rewrite !sset_length; lia). reflexivity. }
+  assert (Ln : length (saved ++ skipn (top m + 4) s') = length s').
+  { rewrite app_length, skipn_length. lia. }
+  split; [rewrite sset_length, Ln; lia|].
+  split; [rewrite sset_length, Ln; lia|].
+  split.
+  { intros i Hi. rewrite sref_sset_other by lia. rewrite sref_app_l by lia. rewrite Hsv by lia.
+    unfold s4. rewrite !sref_sset_other by lia. reflexivity. }
+  rewrite sref_sset_same; [reflexivity|]. rewrite Ln. lia.
+Qed.
+
+(** non-vacuity + the defect of the pinned opcode: a continuation captured on a deep stack (top 74) and resumed on a
+    fresh small stack (length 70: growth needed).  The repaired opcode restores fp = 1, self = obj 3, ip = 12; the
+    pinned one reads them from the old stack object (here: beyond its end) *)
+Definition ex_deep : vm := mkVM ([WObj 7; WFix 5] ++ repeat (WObj 9) 72 ++ repeat (WFix 0) 80) 74 1 (WObj 3) 12.
+Definition ex_small : vm := mkVM ([WObj 1; WObj 2; WFix 42; WObj 4; WObj 5] ++ repeat (WObj 6) 65) 5 3 (WObj 8) 99.
+
+Example ex_resume_grown :
+  let '(m1, saved) := callcc ex_deep (WObj 100) in
+  option_map (fun m3 => (top m3, fp m3, self m3, ip m3, length (stack m3), sref (stack m3) 73))
+             (resumecc_g ex_small saved 5000 [])
+  = Some (74, 1, WObj 3, 12, 142, WFix 42).
+Proof. vm_compute. reflexivity. Qed.
+
+(** "RESUMECC of the pinned code restores the captured registers on every stack" is FALSE when the stack has to grow *)
+Theorem resumecc_stale_stack_refuted_lemma :
+  ~ (forall m kobj m1 saved m2 maxs junk m3,
+       1 <= top m -> top m + 4 <= length (stack m) -> callcc m kobj = (m1, saved) ->
+       top m2 + 2 <= length (stack m2) -> length (stack m2) <= maxs ->
+       resumecc_stale m2 saved maxs junk = Some m3 ->
+       fp m3 = fp m /\ self m3 = self m /\ ip m3 = ip m).
+Proof.
+  intro H.
+  destruct (callcc ex_deep (WObj 100)) as [m1 saved] eqn:Hc.
+  destruct (resumecc_stale ex_small saved 5000 []) as [m3|] eqn:Hr.
+  - specialize (H ex_deep (WObj 100) m1 saved ex_small 5000 [] m3).
+    assert (A1 : 1 <= top ex_deep) by (cbn; lia).
+    assert (A2 : top ex_deep + 4 <= length (stack ex_deep)) by (vm_compute; lia).
+    assert (A3 : top ex_small + 2 <= length (stack ex_small)) by (vm_compute; lia).
+    assert (A4 : length (stack ex_small) <= 5000).
+    { apply Nat.leb_le. vm_compute. reflexivity. }
+    specialize (H A1 A2 Hc A3 A4 Hr). destruct H as (_ & Hself & _).
+    vm_compute in Hc. injection Hc as <- <-. vm_compute in Hr. injection Hr as <-. cbn in Hself. discriminate.
+  - vm_compute in Hc. injection Hc as <- <-. vm_compute in Hr. discriminate.
+Qed.
